@@ -152,7 +152,8 @@ def _c19_replay(name, rec):
 
 MARKER_TARGETS_C02 = ["dep_logic.utils:flatten_items", "dep_logic.markers.multi:MultiMarker.of", "dep_logic.markers.union:MarkerUnion.of",
                       "dep_logic.utils:cnf", "dep_logic.utils:dnf", "dep_logic.utils:intersection", "dep_logic.utils:union",
-                      "dep_logic.markers.multi:MultiMarker.union_simplify", "dep_logic.markers.union:MarkerUnion.intersect_simplify"] + \
+                      "dep_logic.markers.multi:MultiMarker.union_simplify", "dep_logic.markers.union:MarkerUnion.intersect_simplify",
+                      "dep_logic.utils:cnf@distributive", "dep_logic.utils:dnf@distributive"] + \
     [f"{q}{op}" for q in ("dep_logic.markers.any:AnyMarker.", "dep_logic.markers.empty:EmptyMarker.", "dep_logic.markers.multi:MultiMarker.",
                           "dep_logic.markers.union:MarkerUnion.") for op in ("__and__", "__or__")]
 MARKER_TARGETS_C12 = [f"{q}{m}" for q in ("dep_logic.markers.single:SingleMarker.", "dep_logic.markers.multi:MultiMarker.", "dep_logic.markers.union:MarkerUnion.",
@@ -171,7 +172,9 @@ class MarkerPlan(Plan):
     technique = "contracts and loop invariants on the marker combinators (flatten_items, of(), cnf/dnf same-kind branch, intersection, union, class operators, only/exclude) over abstract markers " \
                 "with ev/uses ghosts; definitional axioms generated from the real evaluate() bodies; z3 with deterministic instantiation; atom layer by the bounded stand-in"
     trusted_base = ["A-ENGINE", "law.C13 (== implies same meaning/class/variables) as proved by the C13 check for atoms, bounded for compounds",
-                    "assumed contracts (guarded by the bounded part): the distributive branch of cnf/dnf; for version-valued atoms the bridge 'an atom holds iff its specifier view admits the environment's value' "
+                    "A-STDLIB itertools.product over an abstract list of lists: every tuple takes one member of each list in order, the product is empty iff a list is, and it contains the tuple picked by "
+                    "the two choice functions the distributive law needs (contracts/markers.py: product_contract)",
+                    "assumed contracts (guarded by the bounded part): for version-valued atoms the bridge 'an atom holds iff its specifier view admits the environment's value' "
                     "(C11 a, proved by the C11 check relative to A-PKG-CONTAINS); _normalize_python_version_specifier and from_specifier by their C11 contracts (proved by the C11 check)", "A-STDLIB set semantics: set(xs), issubset, intersection, difference, `in` decide membership by == with an element (hash consistent with ==: C13)",
                     "A-HASHSEED", "A-TERM"]
     rtc = [("marker_algebra", None)]
@@ -191,7 +194,8 @@ class MarkerPlan(Plan):
         tmo = 60000 if tier == "quick" else 180000      # per-VC budget; the slowest VCs take ~11 s with all cores busy
         targets = [] if self.pid == "C15" else MARKER_TARGETS_C02 + MARKER_TARGETS_C12
         heavy = {"dep_logic.utils:flatten_items": 12, "dep_logic.markers.multi:MultiMarker.of": 6, "dep_logic.markers.union:MarkerUnion.of": 6, "dep_logic.utils:union": 3,
-                 "dep_logic.markers.multi:MultiMarker.union_simplify": 8, "dep_logic.markers.union:MarkerUnion.intersect_simplify": 8}
+                 "dep_logic.markers.multi:MultiMarker.union_simplify": 8, "dep_logic.markers.union:MarkerUnion.intersect_simplify": 8,
+                 "dep_logic.utils:cnf@distributive": 4, "dep_logic.utils:dnf@distributive": 4}
         jobs = []
         for t in targets:
             n = heavy.get(t, 1)
@@ -210,7 +214,7 @@ class MarkerPlan(Plan):
             return "C12." in name or any(t + "#" in name for t in MARKER_TARGETS_C12)
         if self.pid == "C15":
             return "C15." in name
-        return not ("C12." in name) and not ("C15." in name) and not ("C03." in name) and any(name.startswith(t + "#") for t in MARKER_TARGETS_C02 + ATOM_TARGETS + ["dep_logic.markers.single:_merge_single_markers@versions"])
+        return not ("C12." in name) and not ("C15." in name) and not ("C03." in name) and any(name.startswith(t.split("@")[0] + "#") for t in MARKER_TARGETS_C02 + ATOM_TARGETS + ["dep_logic.markers.single:_merge_single_markers@versions"])
 
     def own_rtc(self, check):
         return check.startswith(self.pid + ".")
